@@ -10,6 +10,7 @@
 -/
 import FianoModel.Cbfs.ImageLemmas
 import FianoModel.Cbfs.Tie
+import FianoModel.Cbfs.CodeTie   -- T1 code-as-code tie (wp-t1x): audited as a tie module of this check
 
 namespace Fiano.Cbfs
 open Spec
